@@ -276,6 +276,53 @@ def option_tags(q, logic):
     return tags
 
 
+def prop_decide(sig, forms, maxvars=11):
+    """Propositional formulas over <= maxvars declared Bool constants: decide satisfiability of the conjunction by evaluating
+    it under EVERY assignment with the Coq-verified evaluator (one process, one request line per assignment).
+    Returns ('agree', None) = unsatisfiable, ('refuted-certified', model text) = satisfiable, None = not applicable."""
+    import itertools
+    if any(args or res != "B" for (args, res) in sig.funs.values()) or sig.defs:
+        return None
+    forms = [sc.strip_named(f) for f in forms]
+    occ = sorted(set().union(*[symbols_of(f, sig) for f in forms])) if forms else []
+    if len(occ) > maxvars:
+        return None
+    el = Elab(sig)
+    try:
+        aw = " ".join(el.elab(f, {}, "B")[0] for f in forms)
+        sw = smtlib.sig_wire(sig)
+    except (ParseError, IndexError, KeyError, TypeError, ValueError):
+        return None
+    others = [n for n in sig.funs if n not in occ]
+    fixed = " ".join("(def %d () B (b 0))" % sig.id_of(n) for n in others)
+    lines, assigns = [], []
+    for bits in itertools.product((0, 1), repeat=len(occ)):
+        mw = "(model %s %s)" % (" ".join("(def %d () B (b %d))" % (sig.id_of(n), b) for n, b in zip(occ, bits)), fixed)
+        lines.append("(check %s %s (asserts %s) (values ))" % (sw, mw, aw))
+        assigns.append(bits)
+    for attempt in range(40):
+        try:
+            rc, out = vlib.sh([sc.sem_exe()], input="\n".join(lines) + "\n", timeout=300)
+            break
+        except FileNotFoundError:
+            import time
+            time.sleep(3)
+            sc._sem_exe = None
+    else:
+        return None
+    res = out.strip().split("\n")
+    if rc != 0 or len(res) != len(lines):
+        return None
+    n = len(forms)
+    for bits, r in zip(assigns, res):
+        m = re.search(r"asserts=([A-Z]*)", r)
+        if not m or len(m.group(1)) != n or r.startswith("error") or set(m.group(1)) - set("TF"):
+            return None
+        if m.group(1) == "T" * n:
+            return "refuted-certified", "(" + " ".join("(define-fun %s () Bool %s)" % (v, "true" if b else "false") for v, b in zip(occ, bits)) + ")"
+    return "agree", None
+
+
 class Judge:
     """Decides one script; reports through ctx. pid selects what is judged: 'C08' every interpolant's three conditions
     (+ rejected requests), 'C09' only requests with >= 3 groups: the three conditions per cumulative split + the path steps."""
@@ -286,6 +333,12 @@ class Judge:
         self._decls = []
 
     def unsat(self, sig, logic, decls, forms):
+        if logic == "QF_BOOL":
+            v = prop_decide(sig, forms)
+            if v is not None:
+                self.ctx.count("decided-by:exhaustive-verified-evaluation")
+                return v
+        self.ctx.count("decided-by:z3+cvc5(+verified-evaluator-on-sat)")
         lg = "QF_UF" if logic == "QF_BOOL" else logic
         for attempt in range(40):
             try:
